@@ -6,13 +6,14 @@ EXTENDS UtxoEffects, TLC
 CONSTANTS Refs,        \* set of references <<t, i>>
           MaxIn,       \* max length of inputs
           MaxColl,     \* max length of collateral
-          MaxOut       \* max number of outputs
+          MaxOut,      \* max number of outputs
+          Eras         \* eras to enumerate (the laws do not depend on the era; the generated
+                       \* transactions of GenUtxoEffects do: "alonzo", "babbage", "conway")
 
 \* (1,1) < (2,0) < (2,1): lexicographic by id then index, not by index first
 Refs3 == {<<1, 1>>, <<2, 0>>, <<2, 1>>}
 Refs4 == {<<1, 1>>, <<2, 0>>, <<2, 1>>, <<3, 0>>}
 
-Eras == {"alonzo", "babbage", "conway"}
 SeqsUpTo(S, n) == UNION {[1..k -> S] : k \in 0..n}
 OutsOf(n) == [k \in 1..n |-> 10 + k]
 Ret == 99
